@@ -528,3 +528,14 @@ Theorem C12_leaf_entry_entry : forall sl s e,
      else o <- sl s v 16 4 ;; Ok (Resources.EData o)).
 Proof. exact LeafResources.e_entry_agrees. Qed.
 Print Assumptions C12_leaf_entry_entry.
+
+(* the source places the binders of the generated leaf definitions stand for (third audit, F2) *)
+From Coq Require Import List String.
+Import ListNotations.
+Theorem C12_leaf_reads_resources :
+  Leaf.L_resources_DirectoryEntry_is_dir_args = ["self.image.Offset : u32"%string] /\
+  Leaf.L_resources_DirectoryEntry_name__is_wide_args = ["self.image.Name : u32"%string] /\
+  Leaf.L_resources_DirectoryEntry_name__offset_args = ["self.image.Name : u32"%string] /\
+  Leaf.L_resources_DirectoryEntry_entry__offset_args = ["self.image.Offset : u32"%string].
+Proof. exact LeafResources.leaf_reads_resources. Qed.
+Print Assumptions C12_leaf_reads_resources.
